@@ -303,7 +303,7 @@ def rule_concatenate(ctx):
                     ctx.violated('R1', fi, 'align step', 'with align=True every secondary axis must be aligned by name with strict=True before the join', node=p.node)
                     continue
                 if src[0] == 'phi':
-                    if not any(x[0] == 'call' and T.call_name(x) == 'align_' for x in T.strip_phi(src)):
+                    if not any(x[0] == 'call' and T.call_name(x) == 'align_' for x in T.value_alts(src)):
                         ctx.violated('R1', fi, 'joined list', 'the aligned arrays must be the ones that are joined', node=p.node)
                         continue
             def detects_mismatch(a, pol):
